@@ -58,6 +58,9 @@ type c15Step struct {
 	Way  string `json:"way"`  // set add file direct
 	Kind string `json:"kind"` // raw file args
 	Doc  int    `json:"doc"`
+	// Name (file loaders): how the file is called - 0 docN.yaml, 1 docN.yml, 2 docN (no extension),
+	// 3 docN.conf, 4 docN.yaml.local; the content is the same YAML document
+	Name int `json:"file_name,omitempty"`
 }
 
 type c15Case struct {
@@ -78,10 +81,10 @@ func c15Gen(c *core.Ctx) func(yield func(c15Case) bool) {
 		for d := range c15Docs {
 			for _, w := range []string{"set", "add", "direct"} {
 				for _, k := range []string{"raw", "file", "args"} {
-					steps = append(steps, c15Step{w, k, d})
+					steps = append(steps, c15Step{Way: w, Kind: k, Doc: d})
 				}
 			}
-			steps = append(steps, c15Step{"file", "file", d})
+			steps = append(steps, c15Step{Way: "file", Kind: "file", Doc: d})
 		}
 		var rec func(cur []c15Step, max int, alphabet []c15Step) bool
 		rec = func(cur []c15Step, max int, alphabet []c15Step) bool {
@@ -99,6 +102,24 @@ func c15Gen(c *core.Ctx) func(yield func(c15Case) bool) {
 			return true
 		}
 		if !rec(nil, 3, steps) {
+			return
+		}
+		// the same documents in files called differently (the name of a file says nothing about the
+		// other sources): all histories of <= 2 steps
+		var named []c15Step
+		for d := range c15Docs {
+			for _, w := range []string{"set", "add"} {
+				for _, k := range []string{"raw", "args"} {
+					named = append(named, c15Step{Way: w, Kind: k, Doc: d})
+				}
+			}
+			for name := 1; name < len(c15Exts); name++ {
+				for _, w := range []string{"set", "add", "direct", "file"} {
+					named = append(named, c15Step{Way: w, Kind: "file", Doc: d, Name: name})
+				}
+			}
+		}
+		if !rec(nil, 2, named) {
 			return
 		}
 		if c.Thorough() {
@@ -143,6 +164,13 @@ func c15Flatten(prefix string, m map[string]any, out map[string]string) {
 
 var c15Files []string
 
+var c15Exts = []string{".yaml", ".yml", "", ".conf", ".yaml.local"}
+
+// c15File: the file of document doc under its name-th name.
+func c15File(doc, name int) string {
+	return strings.TrimSuffix(c15Files[doc], ".yaml") + c15Exts[name]
+}
+
 func c15Setup() {
 	if c15Files != nil {
 		return
@@ -158,6 +186,11 @@ func c15Setup() {
 			panic(err)
 		}
 		c15Files = append(c15Files, f)
+		for _, ext := range c15Exts[1:] {
+			if err := os.WriteFile(strings.TrimSuffix(f, ".yaml")+ext, []byte(d.yaml), 0o644); err != nil {
+				panic(err)
+			}
+		}
 	}
 }
 
@@ -169,7 +202,7 @@ func c15Run(c *core.Ctx) {
 			case "raw":
 				return loader.NewRawLoader([]byte(c15Docs[s.Doc].yaml))
 			case "file":
-				return loader.NewFileLoader(c15Files[s.Doc])
+				return loader.NewFileLoader(c15File(s.Doc, s.Name))
 			}
 			return loader.NewArgsLoader(c15Docs[s.Doc].args)
 		}
@@ -196,7 +229,7 @@ func c15Run(c *core.Ctx) {
 				opts = append(opts, app.AddConfigLoader(l))
 			case "file":
 				eff = append(eff, e)
-				opts = append(opts, app.SetConfig(c15Files[s.Doc]))
+				opts = append(opts, app.SetConfig(c15File(s.Doc, s.Name)))
 			case "direct":
 				eff = append(eff, e)
 				opts = append(opts, func(a *app.App) { a.Configure.AddLoaders(l) })
@@ -347,7 +380,7 @@ func c15Reuse(c *core.Ctx) {
 			case "raw":
 				loaders = append(loaders, loader.NewRawLoader([]byte(c15Docs[s.Doc].yaml)))
 			case "file":
-				loaders = append(loaders, loader.NewFileLoader(c15Files[s.Doc]))
+				loaders = append(loaders, loader.NewFileLoader(c15File(s.Doc, s.Name)))
 			default:
 				loaders = append(loaders, loader.NewArgsLoader(c15Docs[s.Doc].args))
 			}
